@@ -99,4 +99,173 @@ theorem quiet_sendStartDT (c : Cli) : Quiet c (sendStartDT c) := by
 theorem quiet_sendStopDT (c : Cli) : Quiet c (sendStopDT c) := by
   unfold sendStopDT Quiet; simp
 
+/-! ### the thread -/
+
+theorem life_ev (w : String) : life [Obs.ev w] = if isLife w then [w] else [] := by
+  simp only [life, List.filterMap_cons, List.filterMap_nil]
+  split <;> rename_i h <;> split at h <;> simp_all
+
+theorem finish_spec (c : Cli) (ev : String) :
+    (finish c ev).phase = 4 ∧ life (finish c ev).log = life c.log ++ (if isLife ev then [ev] else []) := by
+  unfold finish
+  simp only
+  refine ⟨rfl, ?_⟩
+  show life ((if c.unconf > 0 then confirmOutstanding c else c).log ++ [Obs.ev ev]) = _
+  rw [life_append, life_ev]
+  congr 1
+  split
+  · exact confirm_life c
+  · rfl
+
+theorem quiet_onMessage (c : Cli) (msg : List Nat) (lr : Bool) : Quiet c (onMessage c msg lr).1 := by
+  unfold onMessage
+  have hq := quiet_checkMessage c msg
+  generalize checkMessage c msg = r at hq
+  obtain ⟨c1, ok⟩ := r
+  simp only at hq ⊢
+  obtain ⟨c2, hc2⟩ : ∃ c2, c2 = (if (!ok) = true then (({ c1 with failure := true } : Cli), false) else (c1, lr)).1 := ⟨_, rfl⟩
+  have h12 : Quiet c1 c2 := by rw [hc2]; split <;> exact quiet_of_eq rfl rfl
+  have : Quiet c2 (if (c2.conState != c.conState) = true then
+      (if (c2.conState == 2) = true then emit c2 (.ev "STARTDT_CON") else if (c2.conState == 1) = true then emit c2 (.ev "STOPDT_CON") else c2)
+    else c2) := by
+    repeat' split
+    all_goals first
+      | exact Quiet.refl _
+      | exact quiet_emit_ev _ _ (by decide)
+  have hfin := Quiet.trans hq (Quiet.trans h12 this)
+  rw [hc2] at hfin
+  cases ok <;> simpa using hfin
+
+theorem quiet_loopRecv (c : Cli) : Quiet c (loopRecv c).1 := by
+  unfold loopRecv
+  split
+  · generalize recvStep c.recvBuf c.sock = r
+    obtain ⟨buf, sk, rr, msg⟩ := r
+    simp only
+    obtain ⟨c1, hc1⟩ : ∃ c1, c1 = (if rr = -1 then (({ ({ c with recvBuf := buf, sock := sk } : Cli) with failure := true } : Cli), false) else (({ c with recvBuf := buf, sock := sk } : Cli), true)) := ⟨_, rfl⟩
+    have h1 : Quiet c c1.1 := by rw [hc1]; split <;> exact quiet_of_eq rfl rfl
+    rw [← hc1]
+    by_cases hr : rr > 0
+    · simp only [hr, if_true]
+      exact Quiet.trans h1 (Quiet.trans (quiet_onMessage _ _ _) (quiet_ackIfW _))
+    · simp only [hr, if_false]
+      exact Quiet.trans h1 (quiet_ackIfW _)
+  · exact Quiet.refl c
+
+theorem quiet_loopBody (c : Cli) : Quiet c (loopBody c).1 := by
+  unfold loopBody
+  exact Quiet.trans (quiet_loopRecv c) (quiet_handleTimeouts _)
+
+/-- one pass of the loop: either nothing of the life cycle happens, or the thread ends with CLOSED -/
+theorem loopIter_spec (c : Cli) :
+    Quiet c (loopIter c) ∨ ((loopIter c).phase = 4 ∧ life (loopIter c).log = life c.log ++ ["CLOSED"]) := by
+  unfold loopIter
+  have hq := quiet_loopBody c
+  generalize loopBody c = r at hq
+  obtain ⟨c2, run⟩ := r
+  simp only at hq ⊢
+  cases run
+  · right
+    simp only [Bool.false_eq_true, if_false]
+    obtain ⟨f1, f2⟩ := finish_spec c2 "CLOSED"
+    exact ⟨f1, by rw [f2, hq.2]; rfl⟩
+  · left
+    simpa using hq
+
+/-- the thread, from one blocking point to the next, by phase -/
+theorem step_spec (c : Cli) :
+    (c.phase = 1 → (step c).phase = 2 ∧ life (step c).log = life c.log) ∧
+    (c.phase = 2 → ((step c).phase = 3 ∧ life (step c).log = life c.log ++ ["OPENED"]) ∨
+                   ((step c).phase = 4 ∧ life (step c).log = life c.log ++ ["FAILED"])) ∧
+    (c.phase = 3 → ((step c).phase = 3 ∧ life (step c).log = life c.log) ∨
+                   ((step c).phase = 4 ∧ life (step c).log = life c.log ++ ["CLOSED"])) ∧
+    (c.phase ≠ 1 → c.phase ≠ 2 → c.phase ≠ 3 → step c = c) := by
+  refine ⟨?_, ?_, ?_, ?_⟩
+  · intro h
+    unfold step resetConnection
+    simp [h]
+  · intro h
+    unfold step
+    rw [if_neg (by rw [h]; decide), if_pos h]
+    by_cases hc : c.connectOk = true
+    · left
+      rw [if_pos hc]
+      refine ⟨rfl, ?_⟩
+      show life (c.log ++ [Obs.ev "OPENED"]) = _
+      rw [life_append, life_ev]; rfl
+    · right
+      rw [if_neg hc]
+      obtain ⟨f1, f2⟩ := finish_spec ({ c with failure := true } : Cli) "FAILED"
+      exact ⟨f1, by rw [f2]; rfl⟩
+  · intro h
+    unfold step
+    simp only [h, show (3 : Nat) ≠ 1 by decide, show (3 : Nat) ≠ 2 by decide, if_false, if_true]
+    rcases loopIter_spec c with hq | hq
+    · left; exact ⟨by rw [hq.1, h], hq.2⟩
+    · right; exact hq
+  · intro h1 h2 h3
+    unfold step
+    simp [h1, h2, h3]
+
+/-! ### every history of one connection attempt -/
+
+/-- what can happen between `connectAsync` and the end of the attempt: the thread runs to its next blocking point, the
+peer / the clock / the connect result change, the application sends -/
+inductive COp where
+  | step
+  | env (sock : Sock) (dt : Nat) (connectOk : Bool)
+  | send (asdu : List Nat)
+  | startdt
+  | stopdt
+
+def COp.apply (c : Cli) : COp → Cli
+  | .step => Iec.Cli104.step c
+  | .env sk dt ok => { c with sock := sk, now := c.now + dt, connectOk := ok }
+  | .send a => (sendAsdu c a).1
+  | .startdt => sendStartDT c
+  | .stopdt => sendStopDT c
+
+/-- the life-cycle events of the attempt so far, given those (`base`) reported before it began -/
+def LifeInv (base : List String) (c : Cli) : Prop :=
+  ((c.phase = 1 ∨ c.phase = 2) ∧ life c.log = base) ∨
+  (c.phase = 3 ∧ life c.log = base ++ ["OPENED"]) ∨
+  (c.phase = 4 ∧ (life c.log = base ++ ["OPENED", "CLOSED"] ∨ life c.log = base ++ ["FAILED"]))
+
+theorem lifeInv_quiet {base : List String} {c c' : Cli} (h : LifeInv base c) (hq : Quiet c c') : LifeInv base c' := by
+  obtain ⟨hp, hl⟩ := hq
+  unfold LifeInv at *
+  rw [hp, hl]; exact h
+
+theorem apply_inv (base : List String) (c : Cli) (op : COp) (h : LifeInv base c) : LifeInv base (op.apply c) := by
+  cases op with
+  | env sk dt ok => exact lifeInv_quiet h (quiet_of_eq rfl rfl)
+  | send a => exact lifeInv_quiet h (quiet_sendAsdu c a)
+  | startdt => exact lifeInv_quiet h (quiet_sendStartDT c)
+  | stopdt => exact lifeInv_quiet h (quiet_sendStopDT c)
+  | step =>
+    obtain ⟨s1, s2, s3, s4⟩ := step_spec c
+    show LifeInv base (Iec.Cli104.step c)
+    rcases h with ⟨hp, hl⟩ | ⟨hp, hl⟩ | ⟨hp, hl⟩
+    · rcases hp with hp | hp
+      · obtain ⟨a, b⟩ := s1 hp
+        exact Or.inl ⟨Or.inr a, by rw [b, hl]⟩
+      · rcases s2 hp with ⟨a, b⟩ | ⟨a, b⟩
+        · exact Or.inr (Or.inl ⟨a, by rw [b, hl]⟩)
+        · exact Or.inr (Or.inr ⟨a, Or.inr (by rw [b, hl])⟩)
+    · rcases s3 hp with ⟨a, b⟩ | ⟨a, b⟩
+      · exact Or.inr (Or.inl ⟨a, by rw [b, hl]⟩)
+      · exact Or.inr (Or.inr ⟨a, Or.inl (by rw [b, hl]; simp)⟩)
+    · rw [s4 (by omega) (by omega) (by omega)]
+      exact Or.inr (Or.inr ⟨hp, hl⟩)
+
+/-- **every history**: whatever the thread, the peer, the clock and the application do after `connectAsync`, the
+attempt reports OPENED at most once and first, then exactly one of CLOSED / FAILED, and nothing after it -/
+theorem attempt_life (c0 : Cli) (ops : List COp) :
+    LifeInv (life c0.log) (ops.foldl COp.apply (connectAsync c0)) := by
+  have h0 : LifeInv (life c0.log) (connectAsync c0) := Or.inl ⟨Or.inl rfl, rfl⟩
+  generalize connectAsync c0 = c at h0
+  induction ops generalizing c with
+  | nil => exact h0
+  | cons op ops ih => exact ih _ (apply_inv _ c op h0)
+
 end Iec.Cli104
